@@ -192,6 +192,15 @@ KERNELS = [
     dict(name="current_to_pbest_1_archive", file="utils/mutations.py", func="current_to_pbest_1_archive",
          params=[("current", "Arr"), ("population", "Mat"), ("pbest", "Arr"), ("F", "Int"), ("pop_archive", "Mat")], ret="Arr", streams=True,
          ext_fn={"random_sample": ("sampler", ["range_size", "quantity", "replace"])}),
+    # ---- the composition of one DE / SHADE trial: donor -> binomial crossover -> boundary repair.  The strategy looked up in the pool
+    #      is `donorFn`, `binomial` is `crossFn` (both applied to the call's actual arguments and ordinal; tied separately),
+    #      bounds_control is a real call of its translation
+    dict(name="DE_get_new_individ_g", file="optimizers/_differentialevolution.py", cls="DifferentialEvolution", func="_get_new_individ_g",
+         params=[("individ_g", "Arr"), ("F", "Int"), ("CR", "Int")], ret="Arr",
+         self_attrs={"_thefittest._genotype": ("best", "Arr"), "_population_g_i": ("population", "Mat"), "_left": ("left", "Arr"), "_right": ("right", "Arr")},
+         opaque_assign=["mutation_func"], uses=["bounds_control"],
+         ext_fn={"mutation_func": ("donorFn", ["current", "best", "population", "F"], ["Arr", "Arr", "Mat", "Int"]),
+                 "binomial": ("crossFn", ["individ", "mutant", "CR"])}),
     dict(name="tournament_selection", file="utils/selections.py", func="tournament_selection",
          params=[("fitness", "Arr"), ("rank", "Arr"), ("tour_size", "Int"), ("quantity", "Int")], ret="Arr",
          ext_fn={"random_sample": ("sampler", ["range_size", "quantity", "replace"])}),
@@ -208,7 +217,7 @@ LTY = {"Int": "Int", "Arr": "List Int", "Bool": "Bool", "Mat": "List (List Int)"
        "ArrSelf": "List (List Int)"}
 TREE_ATTR = {"_nodes": "nodes", "_n_args": "nargs"}
 DEFAULT = {"Int": "0", "Arr": "[]", "Bool": "false", "Mat": "[]"}
-RESERVED = ("_", "shuffler", "grower", "sampler", "wsampler", "end", "at", "from", "to", "in", "do", "then", "fun", "match", "with", "open", "by", "s", "us", "ns", "fuel", "rolls", "max", "min", "hi0", "samples", "self", "self_nodes", "self_nargs", "log", "stops", "kb", "value_ext", "tree")
+RESERVED = ("donorFn", "crossFn", "_", "shuffler", "grower", "sampler", "wsampler", "end", "at", "from", "to", "in", "do", "then", "fun", "match", "with", "open", "by", "s", "us", "ns", "fuel", "rolls", "max", "min", "hi0", "samples", "self", "self_nodes", "self_nargs", "log", "stops", "kb", "value_ext", "tree")
 
 
 class NotRecognised(Exception):
@@ -375,6 +384,8 @@ class Tr:
 
     def collect(self, stmts):
         for st in stmts:
+            if isinstance(st, ast.Assign) and len(st.targets) == 1 and isinstance(st.targets[0], ast.Name) and st.targets[0].id in self.cfg.get("opaque_assign", []):
+                continue
             if isinstance(st, ast.Assign):
                 for t in st.targets:
                     if isinstance(t, ast.Name):
@@ -561,7 +572,7 @@ class Tr:
                 lines.append(f"{{ s with {t} := Imp.getrow {xs} (s.kx : Int), dry := s.dry || decide ({xs}.length ≤ s.kx), kx := s.kx + 1 }}")
                 env[id(e)] = f"s.{t}"
             elif kind == "xfn":
-                par, names = self.ext_fn[nm]
+                par, names = self.ext_fn[nm][:2]
                 kw = {k.arg: k.value for k in e.keywords}
                 actual = list(e.args) + [kw.get(n) for n in names[len(e.args):]]
                 if len(actual) != len(names) or any(a is None for a in actual) or len(kw) != len(names) - len(e.args):
@@ -928,7 +939,7 @@ class Tr:
                 if f.id == "range" and len(args) == 1:
                     return f"((List.range ({self.E(args[0], env)}).toNat).map Int.ofNat)"
                 raise NotRecognised(f"call of {f.id}")
-            if is_np(f, "int64") and len(args) == 1:
+            if is_np(f, "int64", "float64") and len(args) == 1:
                 return self.E(args[0], env)
             if is_np(f, "array") and len(args) == 1:
                 return self.E(args[0], env)
@@ -1098,6 +1109,8 @@ class Tr:
             env = self.pre([st.value], L)
             L.append(f"{{ s with {self.id(st.target.id)} := {self.Ex(st.value, env)} }}")
             return L
+        if isinstance(st, ast.Assign) and len(st.targets) == 1 and isinstance(st.targets[0], ast.Name) and st.targets[0].id in self.cfg.get("opaque_assign", []):
+            return []
         if isinstance(st, ast.Assign):
             if len(st.targets) != 1:
                 raise NotRecognised("chained assignment")
@@ -1414,7 +1427,8 @@ class Tr:
         if self.roll_stream:
             extra += " (rolls : List Int)"
         extra += "".join(f" ({v} : List (List Int))" for v in self.ext_stream.values())
-        extra += "".join(f" ({par} : " + " → ".join(LTY[KERNEL_PARAM_TY[nm_][a]] for a in names) + " → Nat → List Int)" for nm_, (par, names) in self.ext_fn.items())
+        extra += "".join(f" ({v[0]} : " + " → ".join(LTY[t] for t in (v[2] if len(v) > 2 else [KERNEL_PARAM_TY[nm_][a] for a in v[1]])) + " → Nat → List Int)"
+                         for nm_, v in self.ext_fn.items())
         if cfg.get("fuel_param"):
             extra += " (fuelp : Nat)"
         extra += "".join(f" ({par} : Int → List (List Int))" for par in self.tree_ext_fn.values())
@@ -1435,7 +1449,7 @@ class Tr:
                 f"  let s : {name}.S := {{" + ", ".join(f"self{a} := Imp.geti self ({k} : Int)" for k, a in enumerate(self.self_state)) + f"}}\n{fuel}{body}\n\nend TFV.Generated.Src\n")
 
 
-NP_FUNCS = ("int64", "floor", "array", "empty", "zeros", "empty_like", "arange", "cumsum", "argmax")
+NP_FUNCS = ("float64", "int64", "floor", "array", "empty", "zeros", "empty_like", "arange", "cumsum", "argmax")
 KERNEL_BY_NAME = {k["name"]: k for k in KERNELS}
 KERNEL_PARAM_TY = {k["name"]: dict(k["params"]) for k in KERNELS}
 
